@@ -2,4 +2,4 @@ From Coq Require Import Extraction ExtrOcamlBasic.
 From Rumqtt Require Import Stack.Model.
 Extraction Language OCaml.
 Extraction "stack_model.ml" admission handle_auth classify epilogue to_packet okind ohas_props
-  has_arm has_arm_unfixed write_view write_view_unfixed drain writev_view batch_len.
+  has_arm has_arm_unfixed write_view write_view_unfixed drain writev_view batch_len remote_ids registered_id will_event_id.
